@@ -767,4 +767,15 @@ theorem translated_memory_geometry (mCost parallelism mb sl : Nat)
     Gen.Pwhash.memory_geometry mCost parallelism = (mb, sl) :=
   Proofs.GenPwhash.memory_geometry_eq_model mCost parallelism mb sl h
 
+/-- tie to the source: the ranges `Argon2Context::new` validates (output, password, salt, secret, associated data, lanes, memory,
+passes), with every constant of `src/argon2.rs` evaluated for a 64-bit target, are the model's — in particular the memory
+ceiling is 2³²−1 blocks (4 TiB), not a 32-bit quantity of bytes -/
+theorem translated_argon2_validate_guards :
+    Gen.Pwhash.argon2_validate_guards =
+      [(ARGON2_MIN_OUTLEN, ARGON2_MAX_OUTLEN, "output"), (ARGON2_MIN_PWD_LENGTH, ARGON2_MAX_PWD_LENGTH, "password"),
+       (ARGON2_MIN_SALT_LENGTH, ARGON2_MAX_SALT_LENGTH, "salt"), (ARGON2_MIN_SECRET, ARGON2_MAX_SECRET, "secret"),
+       (ARGON2_MIN_AD_LENGTH, ARGON2_MAX_AD_LENGTH, "ad"), (ARGON2_MIN_LANES, ARGON2_MAX_LANES, "parallelism"),
+       (ARGON2_MIN_MEMORY, ARGON2_MAX_MEMORY, "m_cost"), (ARGON2_MIN_TIME, ARGON2_MAX_TIME, "t_cost")] :=
+  Proofs.GenPwhash.argon2_validate_guards_eq
+
 end DryocVerif.Properties.C09
